@@ -1,4 +1,5 @@
 import PysphVerif.Lemmas.InletOutlet
+import PysphVerif.Lemmas.InletOutletMirror
 import Mathlib.Tactic.Ring
 import Mathlib.Tactic.Linarith
 import Mathlib.Algebra.Order.Field.Basic
@@ -274,25 +275,6 @@ theorem arrivals_not_far_when_ioid_copied (zn : Zone α) (m : Mask) (dO : Partic
     simpa [ioidIs] using this
   simp [ioidIs, copyInto, hm, h1]
 
-/-! ### stated, not proved within budget -/
-
-/-- FULL STATEMENT, not proved: the mirror family's ghost array stays
-index-aligned with the outlet array (same length, slot `i` of the ghost is the
-image of slot `i` of the outlet) through `mirrorOutletBody`, given it is aligned
-on entry, every particle is Local and `x y z u` are copied.  The length half is
-exercised on the real code by the harness (`C16:outlet:mirror:ghost-count`,
-`…:ghost-aligned`); the proof needs `removeRows` applied with one index list
-to two lists to commute with `zip`, which was not done. -/
-def mirror_ghost_stays_aligned (α : Type) [Add α] [Sub α] [Mul α] [Neg α] [LT α]
-    [DecidableLT α] [OfNat α 1] [OfNat α 2] : Prop :=
-  ∀ (zn : Zone α) (m : Mask) (dO dG : Particle α) (s s' : State α) (g g' : List (Particle α)),
-    s.ghostOut = some g → g.length = s.outlet.length →
-    (∀ p ∈ s.fluid ++ s.outlet ++ g, isLocal p = true) →
-    m.x = true → m.y = true → m.z = true → m.u = true → m.lbl = true →
-    List.map (·.lbl) g = List.map (·.lbl) s.outlet →
-    mirrorOutletBody zn m dO dG s = some s' → s'.ghostOut = some g' →
-    List.map (·.lbl) g' = List.map (·.lbl) s'.outlet
-
 /-! ## mirror `Outlet.update` -/
 
 /-- what the mirror outlet appends to the outlet array -/
@@ -377,6 +359,141 @@ theorem mirror_outlet_move_exactly_once (zn : Zone α) (m : Mask) (dO dG : Parti
     have := realView_align_perm ((leaving zn s).map (copyInto m { dO with tag := 0 }))
     rw [List.filter_eq_self.mpr hall] at this
     exact this
+
+/-! ### the ghost of the mirror outlet stays index-aligned -/
+
+/-- the outlet's ghost array after the reflected arrivals were appended, before
+the far-end deletion (`ghost_pa.add_particles(**pa_add.get_property_arrays())`
+under `if len(all_idx) > 0`) -/
+def mirrorGhostMid (zn : Zone α) (m : Mask) (dG : Particle α) (s : State α)
+    (g : List (Particle α)) : List (Particle α) :=
+  if (whereFrom (ioidIs 1) 0 (realView (fluidEval zn s))).length > 0 then
+    addParticles (realView (align ((gather (whereFrom (ioidIs 1) 0 (realView (fluidEval zn s)))
+      (fluidEval zn s)).map (fun p => copyInto m { dG with tag := 0 } (reflect zn p))))) g
+  else g
+
+/-- with a ghost array a successful mirror update leaves a ghost array: the one
+after the arrivals with the SAME index list removed that was removed from the
+outlet array -/
+theorem mirrorOutletBody_ghost_spec (zn : Zone α) (m : Mask) (dO dG : Particle α) (s s' : State α)
+    (g : List (Particle α)) (hg : s.ghostOut = some g)
+    (h : mirrorOutletBody zn m dO dG s = some s') :
+    ∃ g', s'.ghostOut = some g' ∧
+      removeParticles (whereFrom (ioidIs 2) 0 (realView (mirrorMid zn m dO s)))
+        (mirrorGhostMid zn m dG s g) = some g' := by
+  unfold mirrorOutletBody at h
+  simp only [hg] at h
+  split at h
+  · cases h
+  · rename_i gh2 hgh
+    split at h
+    · cases h
+    · split at h
+      · cases h
+      · split at h
+        · -- gh2 = none is impossible with a ghost array
+          exfalso
+          split at hgh
+          · split at hgh <;> cases hgh
+          · cases hgh
+        · rename_i g2
+          have hg2 : g2 = mirrorGhostMid zn m dG s g := by
+            unfold mirrorGhostMid fluidEval
+            split at hgh
+            · rename_i hpos
+              rw [if_pos hpos]
+              split at hgh
+              · simp only [Option.some.injEq] at hgh
+                exact hgh.symm
+              · cases hgh
+            · rename_i hpos
+              rw [if_neg hpos]
+              simp only [Option.some.injEq] at hgh
+              exact hgh.symm
+          split at h
+          · cases h
+          · rename_i g3 hg3
+            cases h
+            refine ⟨g3, rfl, ?_⟩
+            rw [← hg2]
+            exact hg3
+
+/-- **The mirror family's ghost array stays index-aligned with the outlet
+array** (same length, slot `k` of the ghost carries the label of slot `k` of the
+outlet) through `mirrorOutletBody`, given it is aligned on entry, every particle
+of fluid, outlet and ghost is Local and `lbl` is among `props_to_copy`.
+Why: both arrays get the arrivals appended in the same order (the reflection
+keeps the label), then `remove_particles` is called with one index list on
+both, and the swap-remove performs a slot permutation that depends on the index
+list and the array length only (`removeRows_map`, `removeRows_zip`); with all
+particles Local `align_particles` makes no move.
+Relative to the earlier unproved `def` of the same name the hypotheses
+`m.x = m.y = m.z = m.u = true` and `g.length = s.outlet.length` are dropped (not
+needed: if `x y z u` are not all copied and a particle arrives, the update
+raises, contradicting `h`; equal length follows from equal labels), and the
+conclusion also states the equal length. -/
+theorem mirror_ghost_stays_aligned (zn : Zone α) (m : Mask) (dO dG : Particle α) (s s' : State α)
+    (g g' : List (Particle α))
+    (hg : s.ghostOut = some g)
+    (hloc : ∀ p ∈ s.fluid ++ s.outlet ++ g, isLocal p = true)
+    (hl : m.lbl = true)
+    (hal : List.map (·.lbl) g = List.map (·.lbl) s.outlet)
+    (h : mirrorOutletBody zn m dO dG s = some s') (hg' : s'.ghostOut = some g') :
+    List.map (·.lbl) g' = List.map (·.lbl) s'.outlet ∧ g'.length = s'.outlet.length := by
+  have hF : ∀ p ∈ fluidEval zn s, isLocal p = true :=
+    evalOne_all_local zn _ _ (fun p hp => hloc p (by simp [hp]))
+  have hO : ∀ p ∈ outletEval zn s, isLocal p = true :=
+    evalOne_all_local zn _ _ (fun p hp => hloc p (by simp [hp]))
+  have hG : ∀ p ∈ g, isLocal p = true := fun p hp => hloc p (by simp [hp])
+  have hcO : ∀ p, isLocal p = true → isLocal (copyInto m { dO with tag := 0 } p) = true :=
+    fun p hp => copyInto_tag0_local m dO p hp
+  have hcG : ∀ p, isLocal p = true →
+      isLocal (copyInto m { dG with tag := 0 } (reflect zn p)) = true :=
+    fun p hp => copyInto_tag0_local m dG (reflect zn p) hp
+  -- the two arrays after the arrivals were appended
+  have hmidO : mirrorMid zn m dO s = outletEval zn s
+      ++ ((fluidEval zn s).filter (ioidIs 1)).map (copyInto m { dO with tag := 0 }) := by
+    unfold mirrorMid mirrorArrivals
+    rw [arrivals_of_all_local (ioidIs 1) _ (fluidEval zn s) hF hcO]
+    apply addParticles_of_all_local
+    intro p hp
+    rcases List.mem_append.mp hp with h1 | h1
+    · exact hO p h1
+    · obtain ⟨q, hq, rfl⟩ := List.mem_map.mp h1
+      exact hcO q (hF q (List.mem_filter.mp hq).1)
+  have hmidG : mirrorGhostMid zn m dG s g = g
+      ++ ((fluidEval zn s).filter (ioidIs 1)).map
+          (fun p => copyInto m { dG with tag := 0 } (reflect zn p)) := by
+    unfold mirrorGhostMid
+    exact ghost_arrivals_of_all_local (ioidIs 1) _ (fluidEval zn s) g hF hG hcG
+  have hallO : ∀ p ∈ mirrorMid zn m dO s, isLocal p = true := by
+    rw [hmidO]
+    intro p hp
+    rcases List.mem_append.mp hp with h1 | h1
+    · exact hO p h1
+    · obtain ⟨q, hq, rfl⟩ := List.mem_map.mp h1
+      exact hcO q (hF q (List.mem_filter.mp hq).1)
+  have hallG : ∀ p ∈ mirrorGhostMid zn m dG s g, isLocal p = true := by
+    rw [hmidG]
+    intro p hp
+    rcases List.mem_append.mp hp with h1 | h1
+    · exact hG p h1
+    · obtain ⟨q, hq, rfl⟩ := List.mem_map.mp h1
+      exact hcG q (hF q (List.mem_filter.mp hq).1)
+  have hlab : (mirrorGhostMid zn m dG s g).map (·.lbl) = (mirrorMid zn m dO s).map (·.lbl) := by
+    rw [hmidO, hmidG, List.map_append, List.map_append, hal, List.map_map, List.map_map]
+    congr 1
+    · simp [outletEval, evalOne]
+    · apply List.map_congr_left
+      intro p _
+      simp only [Function.comp, copyInto_lbl _ _ _ hl]
+      rfl
+  obtain ⟨g3, hg3, hr⟩ := mirrorOutletBody_ghost_spec zn m dO dG s s' g hg h
+  rw [hg'] at hg3
+  cases hg3
+  have ho := (mirrorOutletBody_spec zn m dO dG s s' h).2.1
+  have := removeParticles_labels_aligned _ _ _ _ _ hallO hallG ho hr hlab
+  exact ⟨this, by simpa using congrArg List.length this⟩
 
 /-! ## histories -/
 
@@ -535,6 +652,205 @@ theorem inlet_size_invariant (c : Cfg α) (ops : List (Op α)) (s0 s : State α)
     (h : run c ops (s0, a0) = some (s, a)) : s.inlet.length = s0.inlet.length :=
   (run_count c ops _ _ h).2
 
+/-! ## labels: no particle is ever duplicated
+
+The harness stores a unique label in the passive property `lbl`.  The particles
+"in the flow" are those of the fluid and outlet arrays (an inlet particle is a
+template: its crossing is COPIED into the fluid while the original is recycled
+and keeps living in the inlet array). -/
+
+/-- the labels of the particles that are in the flow: fluid and outlet arrays -/
+def labels (s : State α) : List Int := (s.fluid ++ s.outlet).map (·.lbl)
+
+/-- **the base outlet update creates no label**: the labels in the flow after
+the call are, with multiplicity, among those before (the moved particles keep
+theirs, the deleted ones disappear) -/
+theorem outlet_creates_no_label (zn : Zone α) (m : Mask) (dO : Particle α) (s s' : State α)
+    (hl : m.lbl = true) (h : outletBody zn m dO s = some s') :
+    (labels s').Subperm (labels s) := by
+  have h1 := outlet_move_exactly_once_fluid zn m dO s s' h
+  have h2 := outlet_move_exactly_once zn m dO s s' h
+  have h3 : (((leaving zn s).map (copyInto m dO)).map (·.lbl)).Subperm
+      ((leaving zn s).map (·.lbl)) := by
+    rw [List.map_map]
+    have : ((fun p : Particle α => p.lbl) ∘ copyInto m dO) = (fun p => p.lbl) :=
+      funext (fun p => copyInto_lbl m dO p hl)
+    rw [this]
+  have := labels_step_subperm h1 h2 h3
+  unfold labels
+  rw [List.map_append, List.map_append] at this ⊢
+  rw [fluidEval, outletEval, map_lbl_evalOne, map_lbl_evalOne] at this
+  exact this
+
+/-- the mirror outlet update creates no label either — for every state, aligned
+or not, Local or not -/
+theorem mirror_outlet_creates_no_label (zn : Zone α) (m : Mask) (dO dG : Particle α)
+    (s s' : State α) (hl : m.lbl = true) (h : mirrorOutletBody zn m dO dG s = some s') :
+    (labels s').Subperm (labels s) := by
+  have h1 := mirror_outlet_move_exactly_once_fluid zn m dO dG s s' h
+  have h2 : (s'.outlet ++ mirrorDeleted zn m dO s).Perm
+      (outletEval zn s ++ mirrorArrivals zn m dO s) :=
+    (removeParticles_perm (ioidIs 2) _ _ (mirrorOutletBody_spec zn m dO dG s s' h).2.1).trans
+      (addParticles_perm _ _)
+  have h3 : ((mirrorArrivals zn m dO s).map (·.lbl)).Subperm ((leaving zn s).map (·.lbl)) := by
+    unfold mirrorArrivals
+    split
+    · exact List.nil_subperm
+    · rw [gather_where_realView]
+      have a := subperm_map (fun p : Particle α => p.lbl) (realView_align_subperm
+        (((realView (fluidEval zn s)).filter (ioidIs 1)).map
+          (copyInto m { dO with tag := 0 })))
+      refine a.trans ?_
+      rw [List.map_map]
+      have : ((fun p : Particle α => p.lbl) ∘ copyInto m { dO with tag := 0 })
+          = (fun p => p.lbl) := funext (fun p => copyInto_lbl m _ p hl)
+      rw [this]
+      exact Subperm.refl _
+  have := labels_step_subperm h1 h2 h3
+  unfold labels
+  rw [List.map_append, List.map_append] at this ⊢
+  rw [fluidEval, outletEval, map_lbl_evalOne, map_lbl_evalOne] at this
+  exact this
+
+/-- the inlet adds to the flow exactly the labels of the crossing particles
+(whole-record copies; the originals stay in the inlet array) -/
+theorem inlet_adds_crossing_labels (zn : Zone α) (dF : Particle α) (s s' : State α)
+    (h : inletBody zn dF s = some s') :
+    (labels s').Perm (labels s ++ (crossing zn s).map (·.lbl)) := by
+  have h1 := (inlet_copy_exactly_once_per_crossing zn dF s s' h).map (·.lbl)
+  have h2 := (inlet_nothing_else_changes zn dF s s' h).1
+  unfold labels
+  rw [List.map_append, List.map_append, h2]
+  rw [List.map_append, fluidEval, map_lbl_evalOne] at h1
+  refine (h1.append_right _).trans ?_
+  rw [List.append_assoc, List.append_assoc]
+  exact List.Perm.append_left _ List.perm_append_comm
+
+/-- a move that relabels no fluid or outlet particle -/
+def Motion.keepsLabels (mv : Motion α) : Prop :=
+  (∀ i p, (mv.fluid i p).lbl = p.lbl) ∧ (∀ i p, (mv.outlet i p).lbl = p.lbl)
+
+/-- side condition of one operation for label uniqueness: a move relabels no
+fluid/outlet particle; the particles an active inlet update copies into the
+fluid carry pairwise distinct labels not yet in the flow (the recycled original
+keeps its label in the inlet array — the harness relabels it after the call,
+which in this model is a `move` on the inlet array); the outlet updates need
+nothing -/
+def freshAt (c : Cfg α) (op : Op α) (s : State α) : Prop :=
+  match op with
+  | .move mv => mv.keepsLabels
+  | .inlet act => act = true → (labels s ++ (crossing c.zin s).map (·.lbl)).Nodup
+  | .hybridInlet act => act = true → (labels s ++ (crossing c.zin s).map (·.lbl)).Nodup
+  | .outlet _ => True
+  | .mirrorOutlet _ => True
+
+/-- the side condition holds before every operation of the history -/
+def FreshRun (c : Cfg α) : List (Op α) → State α × Acct → Prop
+  | [], _ => True
+  | op :: ops, sa => freshAt c op sa.1 ∧ ∀ sa', stepOp c op sa = some sa' → FreshRun c ops sa'
+
+/-- one operation keeps the labels in the flow pairwise distinct -/
+theorem step_keeps_labels_nodup (c : Cfg α) (hl : c.mask.lbl = true) (op : Op α)
+    (sa sa' : State α × Acct) (hf : freshAt c op sa.1) (h : stepOp c op sa = some sa')
+    (hd : (labels sa.1).Nodup) : (labels sa'.1).Nodup := by
+  obtain ⟨s, a⟩ := sa
+  cases op with
+  | move mv =>
+    simp only [stepOp, Option.some.injEq] at h
+    subst h
+    simp only [freshAt, Motion.keepsLabels] at hf
+    have : labels (mv.apply s) = labels s := by
+      simp only [labels, Motion.apply, List.map_append, map_lbl_mapIdx _ _ hf.1,
+        map_lbl_mapIdx _ _ hf.2]
+    simpa [this] using hd
+  | inlet act =>
+    simp only [stepOp, Option.map_eq_some_iff] at h
+    obtain ⟨s', hs, rfl⟩ := h
+    cases act with
+    | false => simp only [inletUpdate, Bool.false_eq_true, if_false, Option.some.injEq] at hs
+               subst hs; exact hd
+    | true =>
+      simp only [inletUpdate, if_true] at hs
+      exact (inlet_adds_crossing_labels c.zin c.dF s s' hs).nodup_iff.mpr (hf rfl)
+  | hybridInlet act =>
+    simp only [stepOp, Option.map_eq_some_iff] at h
+    obtain ⟨s', hs, rfl⟩ := h
+    cases act with
+    | false => simp only [hybridInletUpdate, Bool.false_eq_true, if_false,
+                 Option.some.injEq] at hs
+               subst hs; exact hd
+    | true =>
+      simp only [hybridInletUpdate, if_true] at hs
+      exact (inlet_adds_crossing_labels c.zin c.dF _ s' hs).nodup_iff.mpr (hf rfl)
+  | outlet act =>
+    simp only [stepOp, Option.map_eq_some_iff] at h
+    obtain ⟨s', hs, rfl⟩ := h
+    cases act with
+    | false => simp only [outletUpdate, Bool.false_eq_true, if_false, Option.some.injEq] at hs
+               subst hs; exact hd
+    | true =>
+      simp only [outletUpdate, if_true] at hs
+      exact nodup_of_subperm (outlet_creates_no_label c.zout c.mask c.dO s s' hl hs) hd
+  | mirrorOutlet act =>
+    simp only [stepOp, Option.map_eq_some_iff] at h
+    obtain ⟨s', hs, rfl⟩ := h
+    cases act with
+    | false => simp only [mirrorOutletUpdate, Bool.false_eq_true, if_false,
+                 Option.some.injEq] at hs
+               subst hs; exact hd
+    | true =>
+      simp only [mirrorOutletUpdate, if_true] at hs
+      exact nodup_of_subperm
+        (mirror_outlet_creates_no_label c.zout c.mask c.dO c.dG s s' hl hs) hd
+
+/-- **No particle is ever duplicated**: if the labels of the particles in the
+flow (fluid ∪ outlet) are pairwise distinct, they are after any history of
+moves and update calls of all five classes at active or inactive stages,
+provided `lbl` is among `props_to_copy`, no move relabels a fluid/outlet
+particle, and each particle entering through an inlet carries a label new to
+the flow (`FreshRun`; the outlet updates need no side condition — they never
+create a label). -/
+theorem labels_never_duplicated (c : Cfg α) (hl : c.mask.lbl = true) (ops : List (Op α))
+    (sa sa' : State α × Acct) (hf : FreshRun c ops sa) (h : run c ops sa = some sa')
+    (hd : (labels sa.1).Nodup) : (labels sa'.1).Nodup := by
+  induction ops generalizing sa with
+  | nil => simp only [run, Option.some.injEq] at h; subst h; exact hd
+  | cons op ops ih =>
+    simp only [run, Option.bind_eq_some_iff] at h
+    obtain ⟨mid, h1, h2⟩ := h
+    exact ih mid (hf.2 mid h1) h2 (step_keeps_labels_nodup c hl op sa mid hf.1 h1 hd)
+
+
+/-- the operations that cannot add a particle to the flow: label-keeping moves
+and the two outlet updates -/
+def outletSide : Op α → Prop
+  | .move mv => mv.keepsLabels
+  | .outlet _ => True
+  | .mirrorOutlet _ => True
+  | .inlet _ => False
+  | .hybridInlet _ => False
+
+theorem freshRun_of_outletSide (c : Cfg α) (ops : List (Op α)) (h : ∀ op ∈ ops, outletSide op)
+    (sa : State α × Acct) : FreshRun c ops sa := by
+  induction ops generalizing sa with
+  | nil => trivial
+  | cons op ops ih =>
+    refine ⟨?_, fun sa' _ => ih (fun o ho => h o (by simp [ho])) sa'⟩
+    have := h op (by simp)
+    cases op with
+    | move mv => exact this
+    | inlet _ => exact this.elim
+    | hybridInlet _ => exact this.elim
+    | outlet _ => trivial
+    | mirrorOutlet _ => trivial
+
+/-- unconditional form for the outlet side: any history of label-keeping moves
+and (mirror) outlet updates keeps the labels in the flow pairwise distinct -/
+theorem outlet_history_never_duplicates (c : Cfg α) (hl : c.mask.lbl = true) (ops : List (Op α))
+    (h : ∀ op ∈ ops, outletSide op) (sa sa' : State α × Acct) (hr : run c ops sa = some sa')
+    (hd : (labels sa.1).Nodup) : (labels sa'.1).Nodup :=
+  labels_never_duplicated c hl ops sa sa' (freshRun_of_outletSide c ops h sa) hr hd
+
 /-! ## zone geometry over an ordered field -/
 
 section field
@@ -669,6 +985,52 @@ example : (run exCfg [.inlet true, .outlet true, .move ⟨fun _ p => p, fun _ p 
 
 /-- overshoot: moved more than a zone length, still outside after recycling -/
 example : (evalOne exZin exZin.len (shiftUp exZin (exP (3/4) 5))).ioid = 0 := by decide +kernel
+
+/-- mirror family with a ghost array, every particle Local, ghost index-aligned
+with the outlet: two fluid particles arrive, one outlet particle (slot 1, label
+22) is deleted by swap-remove — the hypotheses of `mirror_ghost_stays_aligned`
+hold and the slot order really changes -/
+def exMirror : State Rat :=
+  { inlet := [], ghostIn := none,
+    fluid := [exP (1/2) 11, exP (9/8) 12, exP (3/4) 14, exP (5/4) 13],
+    outlet := [exP (5/4) 21, exP (13/8) 22, exP (11/8) 23],
+    ghostOut := some [exP (3/4) 21, exP (3/8) 22, exP (5/8) 23],
+    urefIn := 1, urefFluid := 0 }
+
+example : (∀ p ∈ exMirror.fluid ++ exMirror.outlet ++ (exMirror.ghostOut.getD []),
+      isLocal p = true) ∧
+    List.map (·.lbl) (exMirror.ghostOut.getD []) = List.map (·.lbl) exMirror.outlet ∧
+    (mirrorOutletBody exZout Mask.all (exP 0 0) (exP 0 0) exMirror).map
+      (fun s => (s.fluid.map (·.lbl), s.outlet.map (·.lbl), (s.ghostOut.getD []).map (·.lbl),
+        (s.ghostOut.getD []).map (·.x)))
+    = some ([11, 14], [21, 13, 23, 12], [21, 13, 23, 12], [3/4, 3/4, 5/8, 7/8]) := by
+  decide +kernel
+
+/-- `removeRows` with one index list on two arrays = on the zipped array -/
+example : removeRows [1, 3] (List.zip [10, 11, 12, 13, 14] ['a', 'b', 'c', 'd', 'e'])
+    = List.zip (removeRows [1, 3] [10, 11, 12, 13, 14]) (removeRows [1, 3] ['a', 'b', 'c', 'd', 'e'])
+    ∧ removeRows [1, 3] [10, 11, 12, 13, 14] = [10, 14, 12] := by decide
+
+/-- label uniqueness: the demo state has pairwise distinct labels in the flow,
+the crossing inlet particles carry new ones, so `FreshRun` holds for an inlet
+call; and an outlet-side history (with a label-keeping move) is non-trivial -/
+example : (labels exState).Nodup ∧ FreshRun exCfg [.inlet true] (exState, ⟨0, 0⟩) :=
+  ⟨by decide +kernel, fun _ => by decide +kernel, fun _ _ => trivial⟩
+
+example : (∀ op ∈ ([.outlet true, .move ⟨fun _ p => p, fun _ p => p,
+        fun _ p => { p with x := p.x + 1/2 }, fun _ p => p, fun _ p => p⟩,
+        .mirrorOutlet true] : List (Op Rat)), outletSide op) ∧
+    (run exCfg [.outlet true, .move ⟨fun _ p => p, fun _ p => p,
+        fun _ p => { p with x := p.x + 1/2 }, fun _ p => p, fun _ p => p⟩,
+        .mirrorOutlet true] (exState, ⟨0, 0⟩)).map (fun sa => labels sa.1)
+      = some [11, 13, 21, 12, 14] := by
+  refine ⟨?_, by decide +kernel⟩
+  intro op hop
+  simp only [List.mem_cons, List.not_mem_nil, or_false] at hop
+  rcases hop with rfl | rfl | rfl
+  · trivial
+  · exact ⟨fun _ _ => rfl, fun _ _ => rfl⟩
+  · trivial
 
 end examples
 
